@@ -146,6 +146,9 @@ def replay_of(h, upto):
             "impl_observation": (h["ops"][upto][1].ident if h["ops"][upto][1] else None)}
 
 
+import xicheck  # noqa: E402  (needs Obs and friends from this module)
+
+
 def run(a, prop, sections, oracle, what, compare_results=("TX", "EB", "INIT", "BB", "AW", "BU", "CM"), extra=None):
     res = c.build(["app"])
     v = c.Verdict(prop, a.tier, a.seed)
@@ -205,6 +208,7 @@ def run(a, prop, sections, oracle, what, compare_results=("TX", "EB", "INIT", "B
                 break
             if io.abort:
                 break
+    xicheck.run(prop, v, out, hists, cov)
     if extra is not None:
         extra(v, out, hists, cov)
     stats = json.load(open(os.path.join(out, "app.stats.json")))
